@@ -105,6 +105,8 @@ class ScipyOptimizeDriver(Driver):
         Used internally to control when to perform singular checks on computed total derivs.
     _con_cache : dict
         Cached result of constraint evaluations because scipy asks for them in a separate function.
+    _con_cache_x : ndarray or None
+        Design point at which the constraint values in _con_cache were evaluated.
     _con_idx : dict
         Used for constraint bookkeeping in the presence of 2-sided constraints.
     _grad_cache : {}
